@@ -69,6 +69,13 @@ fn shape_exec(func: &str, a: &mut Args) -> String {
             };
             fmp3(&s.mass_properties(d))
         }
+        // Capsule through `&dyn Shape` (the principal frame goes through acos/sin/cos: judged by from_capsule3_frame)
+        "shape3_capsule" => {
+            use crate::p3::shape::*;
+            let d = a.f(); let (p, q) = (d3::p(a), d3::p(a)); let r = a.f();
+            let c = Capsule::new(p, q, r); let s: &dyn Shape = &c; let m = s.mass_properties(d);
+            format!("{} {} {}", d3::fp(&m.local_com), ff(m.inv_mass), d3::fv(&m.inv_principal_inertia_sqrt))
+        }
         "shape2" => {
             use crate::p2::shape::*;
             let d = a.f(); let kind = a.u();
@@ -206,6 +213,10 @@ pub fn gen(r: &mut Rng, thorough: bool, v: &mut Vec<(String, String)>) {
             _ => format!("13 {} {}", t3.iter().map(d3::hp).collect::<Vec<_>>().join(" "), hx(br)),
         };
         v.push(("shape3".into(), format!("{} {}", hx(d), s3)));
+        if it % 3 == 0 {
+            let pb = match r.below(4) { 0 => t3[0], 1 => t3[0] + V3::new(0.0, hh, 0.0), 2 => t3[0] + V3::new(2.0, -1.0, 2.0) * hh, _ => t3[1] };
+            v.push(("shape3_capsule".into(), format!("{} {} {} {}", hx(d), d3::hp(&t3[0]), d3::hp(&pb), hx(rad))));
+        }
         let he2 = d2::gen_he(r, lat);
         let t2 = gen_tri2(r, lat);
         let s2 = match it % 9 {
